@@ -81,6 +81,18 @@ def expected_tiers(c):
     return out
 
 
+def has_sliver(g, thr=1e-8):
+    """some interval tier has an interval or an unlabelled stretch (between entries, or up to the span ends) shorter
+    than save's default minimumIntervalLength"""
+    for t in g["tiers"]:
+        if t["k"] != "I":
+            continue
+        marks = [t["lo"]] + [x for e in t["es"] for x in e[:-1]] + [t["hi"]]
+        if any(0 < y - x < thr for x, y in zip(marks, marks[1:])):
+            return True
+    return False
+
+
 def oracle(c, r):
     if c["op"] in iomodel.MODEL_OPS:
         return None          # model-correspondence case: compared with the Lean model only
@@ -100,6 +112,8 @@ def oracle(c, r):
         return Failure(dict(sig, clause="reopen", exc=r["open"][1]), f"opening the saved file raised {r['open'][1]}")
     got = r["open"][1]
     want = expected_tiers(c)
+    if c["blanks"] and has_sliver(g):
+        return None    # outside this property's domain: absorbing a stretch shorter than 1e-8 is C04's subject (tag `sliver`)
     if [t["name"] for t in got["tiers"]] != [t["name"] for t in want]:
         return Failure(dict(sig, clause="names"), f"names {[t['name'] for t in got['tiers']]} expected {[t['name'] for t in want]}")
     if not (ioops.time_ok(g["lo"], got["lo"]) and ioops.time_ok(g["hi"], got["hi"])):
@@ -129,11 +143,15 @@ def oracle(c, r):
 def tags(c, r):
     if c["op"] in iomodel.MODEL_OPS:
         return ["model:" + c["op"]] + (["err:" + r[1]] if r[0] == "err" else [])
-    out = [c["fmt"], "blanks:%s" % c["blanks"], "iei:%s" % c["iei"], c.get("stream", "plain")]
+    out = [c["fmt"], "blanks:%s" % c["blanks"], "iei:%s" % c["iei"], c.get("stream", "plain")] + _sliver_tag(c)
     for k in ("save", "open"):
         if k in r and r[k][0] == "err":
             out.append(f"{k}-err:{r[k][1]}")
     return out
+
+
+def _sliver_tag(c):
+    return ["sliver"] if c["op"] not in iomodel.MODEL_OPS and c.get("blanks") and has_sliver(c["tg"]) else []
 
 
 def nontrivial(c, r):
@@ -162,6 +180,9 @@ def despace(g, rnd):
     hi = top if rnd.random() < 0.3 else top + max(1.0, abs(top) * 1e-3)
     for t in g["tiers"]:
         t["hi"] = hi
+        # the stretch between a tier's last entry and the common span end must not be a sliver either
+        while t["es"] and t["es"][-1][-2] != hi and hi - t["es"][-1][-2] < 1e-6 * max(1.0, abs(hi)):
+            t["es"].pop()
     g["hi"] = hi
     return g
 
